@@ -556,7 +556,9 @@ func (w *watch) watch(fsw *fsnotify.Watcher, m *sync.Mutex, refresh func() error
 			}
 
 			m.Lock()
-			if event.Op == fsnotify.Remove && w.tracked[event.Name] {
+			// A tracked directory that is renamed away is gone from its
+			// configured path just like a removed one.
+			if event.Op&(fsnotify.Remove|fsnotify.Rename) != 0 && w.tracked[event.Name] {
 				w.update(dirErrors, event.Name)
 			} else {
 				w.update(dirErrors)
@@ -606,6 +608,8 @@ func (w *watch) update(dirErrors map[string]error, removed ...string) bool {
 	}
 
 	for _, dir = range removed {
+		// drop a watch that may still be attached to a renamed directory
+		_ = w.watcher.Remove(dir)
 		w.tracked[dir] = false
 		dirErrors[dir] = errors.New("directory removed")
 		update = true
